@@ -41,7 +41,7 @@ def tour_plans(run):
         st["bounds"] = b["label"]
         tours.append(st)
         for i, p in enumerate(paths):
-            ty = ("int", "int", "string", "struct")[i % 4]
+            ty = ("int", "ordered", "string", "struct")[i % 4]
             plans.append([dict(op="Reset", nv=nv, ty=ty)] + [xlate(e["op"]) for e in p])
     return plans, tours
 
@@ -94,7 +94,7 @@ def gen_plans(run):
     # three trees: clones of clones, every tree mutated after every other one was cloned from it (shared-state defects need >= 3)
     for j in range(10 if run.quick() else 150):
         nvv = 9
-        p = [dict(op="Reset", nv=nvv, ty=("int", "string", "struct")[j % 3])]
+        p = [dict(op="Reset", nv=nvv, ty=("int", "string", "struct", "ordered")[j % 4])]
         live = [1]
         for i in range(run.rng.randint(12, 40)):
             r = run.rng.random()
